@@ -20,3 +20,4 @@ import AITB.Props.C03Sarsop
 import AITB.Props.C03Prom
 import AITB.Props.C03GapMin
 import AITB.Props.C03GapMinLb
+import AITB.Props.C03Prom2
